@@ -265,12 +265,15 @@ class PFlow(BaseRoutine):
             self.x_sol = system.dae.x.copy()
             self.y_sol = system.dae.y.copy()
 
+        # set the exit code of the power flow first: a failing TDS initialization below adds to it
+        system.exit_code = 0 if self.converged else 1
+
+        if self.converged:
             if self.config.init_tds:
                 system.TDS.init()
             if self.config.report:
                 system.PFlow.report()
 
-        system.exit_code = 0 if self.converged else 1
         return self.converged
 
     def report(self):
